@@ -162,6 +162,35 @@ def opaque_err(what='error'):
 @intrinsic('fmt.Sprintf', 'fmt.Sprint', 'fmt.Sprintln', 'strconv.Itoa', 'strconv.FormatInt', 'strconv.Quote',
            'encoding/hex.EncodeToString', 'strconv.FormatUint')
 def _sprintf(ex, args, ins, where):
+    # exact for the simple concrete case (format of %s / %d / %v verbs only, concrete string / int arguments): callers
+    # such as wire.MsgVersion.AddUserAgent go on to measure the result
+    try:
+        fmtb, va = (args + [None])[:2]
+        if isinstance(fmtb, (bytes, bytearray)) and isinstance(va, SliceV) and len(args) == 2:
+            vals = ex.slice_elems(va)
+            parts = bytes(fmtb).split(b'%')
+            out = bytearray(parts[0])
+            k = 0
+            okay = True
+            for seg in parts[1:]:
+                if not seg or seg[:1] not in b'sdv' or k >= len(vals):
+                    okay = False
+                    break
+                v = vals[k]
+                k += 1
+                v = v.v if isinstance(v, Iface) else v
+                if isinstance(v, (bytes, bytearray)) and seg[:1] in b'sv':
+                    out += bytes(v)
+                elif isinstance(v, int) and not isinstance(v, bool) and seg[:1] in b'dv':
+                    out += str(v).encode()
+                else:
+                    okay = False
+                    break
+                out += seg[1:]
+            if okay and k == len(vals):
+                return bytes(out)
+    except Exception:
+        pass
     return Opaque('formatted string')
 
 
